@@ -200,7 +200,7 @@ func TestC03(t *testing.T) {
 	evid.Main(t, "C03", func(rec *evid.Rec) {
 		rec.Rule("rapid paths (<=40 plies, legal moves and occasional null moves when not in check) from suite/bench/synthetic/motif roots; at every level EVERY generated pseudo-legal move (legal or not) and the null move are made and undone; complete depth-2/3 make/undo trees at the end of sampled paths; then the path is unwound. Oracle: deep snapshot (placement in three encodings, rights, en-passant, both counters, whole hash history) before make == after undo, at every unwinding level. Non-trivial = capture / castle / promotion / en passant / ep-state cleared / illegal pseudo-legal move; distinct by (position, move)")
 		rec.Assume("snapshot hook board.VerifSnapshot (build tag verif) copies every field of Board")
-		rec.Rapid(t, "undo", evid.Pick(30000, 400000), func(t *rapid.T) {
+		rec.Rapid(t, "undo", evid.Pick(30000, 1000000), func(t *rapid.T) {
 			root, label := gen.Root(t)
 			rec.Class("root_" + label)
 			c := Case{FEN: root.FEN()}
